@@ -73,7 +73,43 @@ def hand_written():
             TG("VERSION", M(S("uint"), 2)),
         ))))},
     ]
-    return [("Full", full), ("Small", small)]
+    # doc comments on every kind of item (they go into the generated code and, as // comments, into the text constant) and
+    # three different tagged items of the same tag (the derived type names Cfg, Cfg2, Cfg3 must not collide)
+    documented_text = """
+        enum Level {
+            "LOW" = 1, /// the low level
+            "MID", /// between
+            "HIGH" = 3 /// the high level
+        };
+        block "IF_DATA" taggedunion {
+            "CFG" struct {
+                uint; /// a number
+                enum Level; /// a level
+                char[8]; /// a name
+            }; /// first
+            block "LIST" (struct Entry {
+                ulong; /// address
+                enum Level;
+            })*; /// a list
+            block "BLK" taggedstruct {
+                "CFG" struct { float; double; }; /// same tag, other content
+                ("REP" uchar)*; /// repeated
+            }; /// a block
+            "THIRD" taggedstruct {
+                "CFG" struct { char[4]; int64; }; /// and a third CFG
+            };
+        };
+"""
+    level = EN("Level", ("LOW", 1), ("MID", None), ("HIGH", 3))
+    documented = [
+        {"d": "type", "t": level},
+        {"d": "block", "tag": "IF_DATA", "seq": False, "m": M(TS("", kind="tu", *[
+            TG("CFG", M(ST("", M(S("uint")), M(EN("Level", ref=True)), M(S("char"), 8)))),
+            TG("LIST", M(ST("Entry", M(S("ulong")), M(EN("Level", ref=True)))), block=True, seq=True),
+            TG("BLK", M(TS("", TG("CFG", M(ST("", M(S("float")), M(S("double"))))), TG("REP", M(S("uchar")), repeat=True))), block=True),
+            TG("THIRD", M(TS("", TG("CFG", M(ST("", M(S("char"), 4), M(S("int64"))))))))]))},
+    ]
+    return [("Full", full, None), ("Small", small, None), ("Documented", documented, documented_text)]
 
 
 def macro_supported(decls):
@@ -112,26 +148,27 @@ def macro_supported(decls):
 
 def build():
     specs = hand_written()
+    nhand = len(specs)
     rng = random.Random(1919)
     gen = ag.DefGen(rng)
-    while len(specs) < 2 + N_RANDOM:
+    while len(specs) < nhand + N_RANDOM:
         gen.max_depth = rng.choice([2, 3, 3, 4])
         decls = gen.definition()
         if not macro_supported(decls):
             continue
-        specs.append((f"Gen{len(specs) - 1}", decls))
-    for name, decls in specs:
+        specs.append((f"Gen{len(specs) - nhand + 1}", decls, None))
+    for name, decls, _ in specs:
         ok, t = ag.resolve(decls)
         if not ok or not ag.unambiguous(t):
             raise SystemExit(f"specification {name} is not well-formed / unambiguous")
     rs = ["// @generated by tools/gen_typed.py - do not edit", "#![allow(dead_code, unused_imports, unused_variables, non_camel_case_types, non_snake_case, clippy::all)]", ""]
-    for name, decls in specs:
+    for name, decls, text in specs:
         mod = name.lower()
         rs.append(f"pub mod {mod} {{")
         rs.append("    use a2lfile::a2ml_specification;")
         rs.append("    a2ml_specification! {")
         rs.append(f"        <{name}>")
-        rs.append(ag.render(decls, indent="        ").rstrip(" "))
+        rs.append(text if text is not None else ag.render(decls, indent="        ").rstrip(" "))
         rs.append("    }")
         rs.append(f"    pub type Top = {name};")
         rs.append(f"    pub const TEXT: &str = {name.upper()}_TEXT;")
@@ -140,11 +177,11 @@ def build():
     rs.append("#[macro_export]")
     rs.append("macro_rules! for_each_typed_spec {")
     rs.append("    ($mac:ident) => {")
-    rs.append("        $mac! { " + ", ".join(n.lower() for n, _ in specs) + " }")
+    rs.append("        $mac! { " + ", ".join(n.lower() for n, _, _ in specs) + " }")
     rs.append("    };")
     rs.append("}")
     rs.append("")
-    return "\n".join(rs), json.dumps({n.lower(): d for n, d in specs}, indent=1, sort_keys=True) + "\n"
+    return "\n".join(rs), json.dumps({n.lower(): d for n, d, _ in specs}, indent=1, sort_keys=True) + "\n"
 
 
 def main():
